@@ -17,6 +17,7 @@ Definition tBegin := 1.   Definition tCommit := 2.   Definition tRollback := 3. 
 Definition tExec := 10.   Definition tQuery := 11.   Definition tPrepare := 12.
 Definition tStmtExec := 13. Definition tStmtQuery := 14.
 Definition tImg := 20.    Definition tSp := 21.      Definition tUndoP := 22.  Definition tUndo := 23.
+Definition tAux := 24.    (* auxiliary read of the insert executor: SHOW VARIABLES LIKE 'auto_increment_increment' *)
 Definition tReg := 30.    Definition tReport := 31.  Definition tLockQ := 32.  Definition tTcOther := 39.
 Definition tOther := 99.
 
@@ -50,7 +51,7 @@ Fixpoint evs_eqb (a b : list ev) : bool :=
    answered driver.ErrSkip and database/sql carries on with a prepared statement) *)
 Definition is_extra (bracket : bool) (e : ev) : bool :=
   let t := ev_tag e in
-  N.eqb t tImg || N.eqb t tSp || N.eqb t tUndoP || N.eqb t tUndo ||
+  N.eqb t tImg || N.eqb t tSp || N.eqb t tUndoP || N.eqb t tUndo || N.eqb t tAux ||
   N.eqb t tReg || N.eqb t tReport || N.eqb t tLockQ || N.eqb t tTcOther ||
   (bracket && (N.eqb t tBegin || N.eqb t tCommit || N.eqb t tRollback)).
 Definition erase_extra (bracket : bool) (es : list ev) : list ev :=
@@ -171,33 +172,42 @@ Definition bare_accepts (o : op) (obs : list ev) : bool :=
 
 (* ---------------------------------------------------------------- the AT proxy inside a global transaction *)
 Definition is_dml (k : exkind) : bool :=
-  match k with ExInsert | ExUpdate | ExDelete => true | _ => false end.
+  match k with ExInsert | ExUpdate | ExDelete | ExUpsert => true | _ => false end.
+
+Definition has_aux (obs : list ev) : bool := existsb (fun e => N.eqb (ev_tag e) tAux) obs.
 
 Definition img_nz (obs : list ev) : bool :=
   match find (fun e => N.eqb (ev_tag e) tImg) obs with Some e => ev_nz e | None => false end.
 
 (* undo rows exist for a statement: UPDATE/DELETE with a non-empty before image, every INSERT *)
 Definition has_undo (k : exkind) (nz : bool) : bool :=
-  match k with ExInsert => true | ExUpdate | ExDelete => nz | _ => false end.
+  match k with ExInsert | ExUpsert => true | ExUpdate | ExDelete => nz | _ => false end.
 
 Definition ok1 (t : N) : pat := (t, Some true, None).
 
-Definition core (k : exkind) (q nz : bool) : option (list pat) :=
-  let bz := ok1 (direct_tag q) in
+(* the business statement as the target sees it inside the branch: the direct call, or — bound arguments
+   while interpolateParams is off: the target answers driver.ErrSkip — PREPARE + STMT_EXEC/STMT_QUERY *)
+Definition biz (vp q : bool) : list pat :=
+  if vp then [ok1 tPrepare; ok1 (stmt_tag q)] else [ok1 (direct_tag q)].
+
+(* image queries count once, however they are issued (directly, or prepared after ErrSkip) *)
+Definition core (k : exkind) (vp q nz aux : bool) : option (list pat) :=
+  let bz := biz vp q in
   match k with
-  | ExPlain => Some [bz]
-  | ExUpdate => Some ([(tImg, Some true, Some nz); bz] ++ (if nz then [ok1 tImg] else []))
-  | ExDelete => Some [(tImg, Some true, Some nz); bz]
-  | ExInsert => Some [bz; (tImg, Some true, Some true)]
-  | ExSfu => Some [ok1 tSp; ok1 tImg; bz; ok1 tLockQ]
+  | ExPlain => Some bz
+  | ExUpdate => Some ([(tImg, Some true, Some nz)] ++ bz ++ (if nz then [ok1 tImg] else []))
+  | ExDelete => Some ([(tImg, Some true, Some nz)] ++ bz)
+  | ExInsert => Some (bz ++ (if aux then [ok1 tAux] else []) ++ [(tImg, Some true, Some true)])   (* also REPLACE *)
+  | ExUpsert => Some ([ok1 tImg] ++ bz ++ [ok1 tImg])
+  | ExSfu => Some ([ok1 tSp; ok1 tImg] ++ bz ++ [ok1 tLockQ])
   | _ => None
   end.
 
 Definition undo_pats (u : bool) : list pat := if u then [ok1 tUndoP; ok1 tUndo] else [].
 
 (* an autocommit statement: local bracket, phase one inside it *)
-Definition bracketed (k : exkind) (q nz : bool) : option (list pat) :=
-  match core k q nz with
+Definition bracketed (k : exkind) (vp q nz aux : bool) : option (list pat) :=
+  match core k vp q nz aux with
   | None => None
   | Some c =>
       Some ([ok1 tBegin] ++ c ++
@@ -219,14 +229,6 @@ Definition all_local (s : txs) : bool :=
 
 Definition commit_pats (d z : bool) : list pat :=
   (if d then [ok1 tReg] else []) ++ undo_pats z ++ [ok1 tCommit] ++ (if d then [ok1 tReport] else []).
-
-(* the statement through the prepared path (o_vp): only the plain executor is modelled there *)
-Definition vp_pats (k : exkind) (q : bool) : option (list pat) :=
-  match k with
-  | ExPlain => Some [ok1 tPrepare; ok1 (stmt_tag q)]
-  | ExSfu => Some [ok1 tSp; ok1 tSp; ok1 tPrepare; ok1 (stmt_tag q)]   (* savepoint, rollback to it, then the prepared statement *)
-  | _ => None
-  end.
 
 (* a statement the caller prepared, run with an xid context: Stmt.QueryContext / Stmt.ExecContext reach
    the target statement without bracket, images or lock query (plain statements and locking reads;
@@ -254,8 +256,8 @@ Definition accept (ps : option (list pat)) (obs : list ev) (s' : txs) : option t
 
 (* one operation: None = the journal is not one the model allows (or the operation is outside the
    modelled class: executor kinds upsert/multi, a failing statement with an xid context, an autocommit
-   statement with an xid context on a pinned connection, a locking read with an xid context inside a
-   local transaction, DML through the prepared path with an xid context) *)
+   statement with an xid context on a pinned connection, a direct locking read with an xid context inside a
+   local transaction, DML the caller prepared, executor kind multi) *)
 Definition step (c : cfg) (px : proxy) (s : txs) (o : op) (obs : list ev) : option txs :=
   if negb (cfg_ok c) then None else
   match o_k o with
@@ -279,19 +281,12 @@ Definition step (c : cfg) (px : proxy) (s : txs) (o : op) (obs : list ev) : opti
           match tx_get (o_conn o) s with
           | None =>
               if negb (N.eqb (o_conn o) 0) then None
-              else if o_vp o
-              then accept (match k with
-                           | ExPlain => Some [ok1 tBegin; ok1 tRollback; ok1 tPrepare; ok1 (stmt_tag q)]
-                           | ExSfu => Some [ok1 tBegin; ok1 tSp; ok1 tSp; ok1 tRollback; ok1 tPrepare; ok1 (stmt_tag q)]
-                           | _ => None
-                           end) obs s
-              else accept (bracketed k q nz) obs s
+              else accept (bracketed k (o_vp o) q nz (has_aux obs)) obs s
           | Some TxL =>
-              if o_vp o then accept (vp_pats k q) obs s
-              else match k with ExSfu => None | _ => accept (core k q nz) obs s end
+              match k with ExSfu => None
+                         | _ => accept (core k (o_vp o) q nz (has_aux obs)) obs s end
           | Some (TxG d z) =>
-              if o_vp o then accept (vp_pats k q) obs s
-              else accept (core k q nz) obs
+              accept (core k (o_vp o) q nz (has_aux obs)) obs
                      ((o_conn o, TxG (d || is_dml k) (z || has_undo k nz)) :: tx_del (o_conn o) s)
           end
       end
